@@ -257,7 +257,7 @@ PROPS = {
                  'self/mutual/through-body/through-include recursion without base case must be an error, bounded recursion within the limit must render.',
         'note': 'generator exclusions: negative parameter defaults, map literals forming `{{`/`}}` inside `name={..}`, typed parameters whose default contradicts the type; which escaping mode a component\'s own prints follow when caller and definer disagree is not asserted',
         'rule': "one evaluation = one registration/render; a cell = (number of parameters, rest/closed, body/inline, call site, bound or rejection reason) plus cells of the escaping, priority and recursion families",
-        'must_observe': ['context_dumps_compared', 'rejections_agree', 'api_template_pairs', 'escape_checks', 'priority_checks', 'recursion_checks', 'render_str_calls_compared', 'isolation_through_include_checks'],
+        'must_observe': ['context_dumps_compared', 'rejections_agree', 'api_template_pairs', 'escape_checks', 'priority_checks', 'recursion_checks', 'render_str_calls_compared', 'isolation_through_include_checks', 'call_sequences_compared'],
     },
     'C01': {
         'scale': {'quick': 2, 'thorough': 1.5},
@@ -269,6 +269,6 @@ PROPS = {
                  'exactly 0 for `| safe`, for a filter and a function registered as safe (trait `is_safe`), and for a safe filter reached through `State::call_filter`, while the same filter/function not registered as safe is escaped, and depth 0 with zero logged escaper calls when the template is not autoescaped (suffix not matching, custom suffix lists set before or after adding, render_str flag). Every eighth case renders a general generated program (markup-free text, no safe, hostile data) with the default escaper.',
         'note': 'the escape function also validates that its input is valid UTF-8 (it is produced with from_utf8_unchecked); mixed on/off modes inside one render are not generated',
         'rule': "one evaluation = one render; a cell = (ordered routing step kinds, sink, autoescape on/off, configuration)",
-        'must_observe': ['mode_a_outputs_checked', 'escape_calls_logged', 'data_characters_classified', 'pass_through_programs', 'safe_programs', 'not_autoescaped_programs', 'per_call_flag_checks', 'suffix_decisions_checked'],
+        'must_observe': ['mode_a_outputs_checked', 'escape_calls_logged', 'data_characters_classified', 'pass_through_programs', 'safe_programs', 'not_autoescaped_programs', 'per_call_flag_checks', 'suffix_decisions_checked', 'twin_sink_halves_classified'],
     },
 }
